@@ -63,7 +63,19 @@ def run(m: Model, r: Report, tier: str) -> None:
     r.check("await writer.drain()" in hsrc, "R3", f"{hc.qualname}#drain", "server must drain after each reply", loc=hc.loc)
 
     # ---------------------------------------------------------------- R4
-    brk = [n for n in ast.walk(hc.node) if isinstance(n, ast.If) and m.mtext(hc, n.test) == "not _L" and isinstance(n.body[0], ast.Break)]
+    line_vars = [n.targets[0].id for n in ast.walk(hc.node) if isinstance(n, ast.Assign) and isinstance(n.targets[0], ast.Name) and ".readline()" in ast.unparse(n.value)]
+    brk = [n for n in ast.walk(hc.node) if isinstance(n, ast.If) and isinstance(n.body[0], ast.Break) and any(isinstance(x, ast.Name) and x.id in line_vars for x in ast.walk(n.test))]
+    # the decision of that test for the three kinds of result readline() can give (finite-domain evaluation): end-of-stream and the unterminated rest of a message
+    # whose sender died end the loop, a complete line does not
+    if len(brk) == 1 and len(line_vars) == 1:
+        from sa import miniterp as _mt19b
+        dec = []
+        for val, want in ((b"", True), (b"1003\n", False), (b"2ef19011\n", False), (b"2ef1901122", True), (b"10", True)):
+            got = bool(_mt19b.eval_expr(brk[0].test, {line_vars[0]: val}))
+            if got != want:
+                dec.append(f"{val!r} -> {'ends the loop' if got else 'is handled as a request'}")
+        r.check(not dec, "R4", f"{hc.qualname}#incomplete-line", f"{dec}: only newline-terminated lines are messages; at end-of-stream readline() returns the unterminated rest of a "
+                "message whose sender died, which must end the loop like b'' instead of being answered as a request that was never completely sent", loc=hc.loc)
     first_read_line = min((n.lineno for n in reads), default=0)
     strip_line = min((n.lineno for n in ast.walk(hc.node) if isinstance(n, ast.Call) and isinstance(n.func, ast.Attribute) and n.func.attr == "strip"), default=10 ** 9)
     r.check(len(brk) == 1 and first_read_line < brk[0].lineno < strip_line, "R4", f"{hc.qualname}#eof-ends-loop",
